@@ -303,6 +303,12 @@ def iterative(prog: Program, rep) -> None:
         alts = {U(z) for z in phi_alternatives(x0r)} if x0r is not None else set()
         ok = alts == {"initial_sol()", "initial_sol"} or alts == {"initial_sol()", "None"}
         guard = [s for s in ff.order if isinstance(s.stmt, ast.Assign) and U(s.stmt.value) == "initial_sol()" and ("isnot", "initial_sol", "None") in s.facts]
+        if not guard:
+            from ..symex import atoms_of as _atoms
+            for z in ([x0r] if x0r is not None else []) + [s.stmt.value for s in ff.order if isinstance(s.stmt, ast.Assign)]:
+                if isinstance(z, ast.IfExp) and U(z.body) == "initial_sol()" and _atoms(z.test, True) == [("isnot", "initial_sol", "None")] \
+                        and isinstance(z.orelse, ast.Constant) and z.orelse.value is None:
+                    guard = [z]
         rep.check(ok and bool(guard), "initial-guess-honoured", sv.qualname, short(si.stmt), "a given initial guess (a thunk) is called and its value passed to the backend as x0", sv.loc(call))
         if cname == "GMRESSolver":
             early = [r for r in returns_of(sv) if "initial_sol" in U(r.value)]
